@@ -284,7 +284,7 @@ func (t *HashType) IsAssignable(o px.Type, g px.Guard) bool {
 		if t.size.min == 0 && o == hashTypeEmpty {
 			return true
 		}
-		return t.size.IsAssignable(o.size, g) && (o.size.max == 0 || GuardedIsAssignable(t.keyType, o.keyType, g) && GuardedIsAssignable(t.valueType, o.valueType, g))
+		return t.size.IsAssignable(o.size, g) && (o.size.max <= 0 || GuardedIsAssignable(t.keyType, o.keyType, g) && GuardedIsAssignable(t.valueType, o.valueType, g))
 	case *StructType:
 		if !t.size.IsAssignable(o.Size(), g) {
 			return false
